@@ -99,10 +99,12 @@ def run(case: dict, ctx) -> dict:
         plen = rng.choice([0, 1, 15, 16, 4095, 4096, 4097, rng.randrange(0, 70000), rng.randrange(0, 3 << 20) if rng.random() < 0.1 else rng.randrange(0, 9000)])
         payload = bytes(rng.getrandbits(8) for _ in range(min(plen, 4096))) * (plen // 4096 + 1)
         payload = payload[:plen]
-    padding = rng.choice([0, 1, 4095, rng.randrange(0, 4096), (-plen) % 4096])
+    # the footer's padding field is a plain 32-bit count: writers that always pad store 4096 for aligned payloads
+    padding = rng.choice([0, 1, 4095, rng.randrange(0, 4096), (-plen) % 4096, 4096 - plen % 4096, 4096, rng.randrange(4096, 12000)])
+    fill = rng.choice([None, None, None, 0, 0, 1, 3, 4])
     aad = rng.choice([None, b"ESXConfiguration", b"", b"x", bytes(rng.randrange(256) for _ in range(rng.randrange(1, 300)))])
     extra = gen_attrs(rng)
-    raw, meta = w.build(rng, payload=payload, key=key, iv=iv, extra_attrs=extra, aad=aad, padding=padding, order=rng.choice(["sample", "shuffle"]),
+    raw, meta = w.build(rng, payload=payload, key=key, iv=iv, extra_attrs=extra, aad=aad, padding=padding, order=rng.choice(["sample", "shuffle"]), fill=fill,
                         key_info="".join(rng.choice("0123456789abcdef-") for _ in range(rng.randrange(1, 40))))
     o = call(_decrypt, raw, key, aad)
     cnt["roundtrips"] = 1
